@@ -30,6 +30,7 @@ use smallvec::{smallvec, SmallVec};
 
 use ast_grep_config::RuleCollection;
 use ast_grep_core::Pattern;
+use ast_grep_core::MatchStrictness;
 use ast_grep_core::{Matcher, StrDoc};
 use ast_grep_language::Language;
 
@@ -162,7 +163,10 @@ pub fn filter_file_pattern<'a>(
   let grep = lang.ast_grep(&file_content);
   let do_match = |ast_grep: AstGrep, matcher: &'a Pattern<SgLang>| {
     let fixed = matcher.fixed_string();
-    if !fixed.is_empty() && !file_content.contains(&*fixed) {
+    // under `signature` strictness the text of tokens is not compared, so a file
+    // can match without containing the pattern's literal: no shortcut there
+    let text_matters = !matches!(matcher.strictness, MatchStrictness::Signature);
+    if text_matters && !fixed.is_empty() && !file_content.contains(&*fixed) {
       return None;
     }
     Some(MatchUnit {
